@@ -80,34 +80,85 @@ Definition head_level (T : ptable) (h : head) : nat :=
   | HNot => lvl_not T | HBin o => prec T o | HPost => lvl_is T | HIn => lvl_in T | HBetween => lvl_between T
   end.
 
-(* pypika's policy.  getattr(side, "operator", None) sees through Not (attribute delegation). *)
+(* pypika's policy.  getattr(side, "operator", None) sees through Not (attribute delegation).
+   The operand rules (_operand_sql, the rules for unary minus and for a negative right operand of '-') are read from
+   the tables probed out of the code (gen/TermsTable.v): operand_parens, neg_parens_*, sub_parens_minus. *)
 Fixpoint top_aop (e : expr) : option aop :=
   match e with EBin (BA o) _ _ => Some o | ENot e' => top_aop e' | _ => None end.
 Definition top_bop_e (e : expr) : option bop := match e with EBin (BB b) _ _ => Some b | _ => None end.
 
-Definition impl_pol (p : pos) (c : expr) : bool :=
-  match p with
-  | PNeg => false                                            (* Negative.get_sql: bare prefix *)
-  | PNot => match c with EBin (BB _) _ _ => true | _ => false end   (* Not forces subcriterion=True *)
-  | PBinL (BA o) => left_needs_parens o (top_aop c)
-  | PBinR (BA o) => right_needs_parens o (top_aop c)
-  | PBinL (BB b) | PBinR (BB b) => needs_brackets_x b (top_bop_e c)
-  | PBinL (BC _) | PBinR (BC _) => false                     (* criteria never bracket their operands *)
-  | PPost | PInL | PBetE | PBetLo | PBetHi => false
+Definition okind_e (e : expr) : okind :=
+  match e with
+  | EBin (BC _) _ _ => OKBasic | EBin (BB _) _ _ => OKCplx | EIn _ _ _ => OKIn | EBetween _ _ _ => OKBetween
+  | EPost PIsNull _ => OKNull | EPost PIsNotNull _ => OKNotNull | ENot _ => OKNot | _ => OKOther
   end.
 
-(* a head-only lower bound of the policy (exact except under Not-delegation, where it says "no parentheses") *)
+(* the policy without the two textual minus rules *)
+Definition pol_b (p : pos) (c : expr) : bool :=
+  match p with
+  | PNeg => operand_parens SNeg (okind_e c)
+            || match c with EBin (BA _) _ _ => neg_parens_arith | ENeg _ => neg_parens_neg | _ => false end
+  | PNot => match c with EBin (BB _) _ _ => true | _ => false end   (* Not forces subcriterion=True *)
+  | PBinL (BA o) => left_needs_parens o (top_aop c) || operand_parens SArithL (okind_e c)
+  | PBinR (BA o) => right_needs_parens o (top_aop c) || operand_parens SArithR (okind_e c)
+  | PBinL (BB b) | PBinR (BB b) => needs_brackets_x b (top_bop_e c)
+  | PBinL (BC _) => operand_parens SCmpL (okind_e c)
+  | PBinR (BC _) => operand_parens SCmpR (okind_e c)
+  | PPost => operand_parens SIsNull (okind_e c)
+  | PInL => operand_parens SInTerm (okind_e c)
+  | PBetE => operand_parens SBetTerm (okind_e c)
+  | PBetLo => operand_parens SBetLo (okind_e c)
+  | PBetHi => operand_parens SBetHi (okind_e c)
+  end.
+
+(* does the text of the (bare) operand start with a minus sign?  Left operands are never subject to a minus rule, so
+   pol_b decides their parentheses. *)
+Fixpoint lead_minus (e : expr) : bool :=
+  match e with
+  | EAtom a => starts_minus a
+  | ENeg _ => true
+  | ENot _ => false
+  | EBin o l _ => negb (pol_b (PBinL o) l) && lead_minus l
+  | EPost _ c => negb (pol_b PPost c) && lead_minus c
+  | EIn _ c _ => negb (pol_b PInL c) && lead_minus c
+  | EBetween c _ _ => negb (pol_b PBetE c) && lead_minus c
+  | ECall f _ => starts_minus f
+  | ECase _ _ => false
+  end.
+
+Definition impl_pol (p : pos) (c : expr) : bool :=
+  pol_b p c ||
+  match p with
+  | PNeg => neg_parens_minus && lead_minus c
+  | PBinR (BA OSub) => sub_parens_minus && lead_minus c
+  | _ => false
+  end.
+
+(* a head-only lower bound of the policy (exact except under Not-delegation and for the minus rules, where it says
+   "no parentheses") *)
 Definition head_aop (h : head) : option aop := match h with HBin (BA o) => Some o | _ => None end.
 Definition head_bop (h : head) : option bop := match h with HBin (BB b) => Some b | _ => None end.
+Definition okind_h (h : head) : option okind :=
+  match h with
+  | HBin (BC _) => Some OKBasic | HBin (BB _) => Some OKCplx | HIn => Some OKIn | HBetween => Some OKBetween
+  | HPost => None   (* IS NULL / IS NOT NULL: both rows of the table are consulted *)
+  | HNot => Some OKNot | _ => Some OKOther end.
+Definition opnd_h (s : oslot) (h : head) : bool :=
+  match okind_h h with Some k => operand_parens s k | None => operand_parens s OKNull && operand_parens s OKNotNull end.
 Definition pol_h (p : pos) (h : head) : bool :=
   match p with
-  | PNeg => false
+  | PNeg => opnd_h SNeg h || match h with HBin (BA _) => neg_parens_arith | HNeg => neg_parens_neg | _ => false end
   | PNot => match h with HBin (BB _) => true | _ => false end
-  | PBinL (BA o) => match h with HNot => false | _ => left_needs_parens o (head_aop h) end
-  | PBinR (BA o) => match h with HNot => false | _ => right_needs_parens o (head_aop h) end
+  | PBinL (BA o) => (match h with HNot => false | _ => left_needs_parens o (head_aop h) end) || opnd_h SArithL h
+  | PBinR (BA o) => (match h with HNot => false | _ => right_needs_parens o (head_aop h) end) || opnd_h SArithR h
   | PBinL (BB b) | PBinR (BB b) => needs_brackets_x b (head_bop h)
-  | PBinL (BC _) | PBinR (BC _) => false
-  | PPost | PInL | PBetE | PBetLo | PBetHi => false
+  | PBinL (BC _) => opnd_h SCmpL h
+  | PBinR (BC _) => opnd_h SCmpR h
+  | PPost => opnd_h SIsNull h
+  | PInL => opnd_h SInTerm h
+  | PBetE => opnd_h SBetTerm h
+  | PBetLo => opnd_h SBetLo h
+  | PBetHi => opnd_h SBetHi h
   end.
 
 (* textbook rule and domination, head-wise *)
@@ -199,27 +250,40 @@ Definition parl (b : bool) (l : list tok) : list tok := if b then KLP :: l ++ [K
 Fixpoint rtoks (c : ctx) (t : term) {struct t} : option (list tok) :=
   match t with
   | TField _ _ None | TStar _ | TValS _ None | TValI _ None | TValB _ _ None | TValNone None | TValRaw _ None
-  | TLit _ None | TParam _ => s <~ leaf_text (set_wa c false) t ;; Some [KAtom s]
-  | TNeg t' => a <~ rtoks c t' ;; Some (KNeg :: a)
+  | TLit _ None | TParam _ =>
+      s <~ leaf_text (set_wa c false) t ;; match s with EmptyString => None | _ => Some [KAtom s] end
+  | TNeg t' =>
+      a0 <~ rtoks (opc SNeg t' c) t' ;;
+      let a := parl (operand_parens SNeg (okind_of t')) a0 in
+      Some (KNeg :: parl (match t' with TArith _ _ _ _ => neg_parens_arith | TNeg _ => neg_parens_neg | _ => false end
+                          || (neg_parens_minus && starts_minus (flatten a))) a)
   | TArith op l r None =>
       let c' := set_wa c false in
-      a <~ rtoks c' l ;; b <~ rtoks c' r ;;
-      Some (parl (left_needs_parens op (top_op l)) a ++ KOp (BA op) :: parl (right_needs_parens op (top_op r)) b)
+      a0 <~ rtoks (opc SArithL l c') l ;; b0 <~ rtoks (opc SArithR r c') r ;;
+      let a := parl (operand_parens SArithL (okind_of l)) a0 in
+      let b := parl (operand_parens SArithR (okind_of r)) b0 in
+      let rp := right_needs_parens op (top_op r)
+                || (sub_parens_minus && (match op with OSub => true | _ => false end) && starts_minus (flatten b)) in
+      Some (parl (left_needs_parens op (top_op l)) a ++ KOp (BA op) :: parl rp b)
   | TBasic cm l r None =>
       let c' := set_wa c false in
-      a <~ rtoks c' l ;; b <~ rtoks c' r ;; Some (a ++ KOp (BC cm) :: b)
+      a <~ rtoks (opc SCmpL l c') l ;; b <~ rtoks (opc SCmpR r c') r ;;
+      Some (parl (operand_parens SCmpL (okind_of l)) a ++ KOp (BC cm) :: parl (operand_parens SCmpR (okind_of r)) b)
   | TCplx bo l r None =>
       a <~ rtoks (set_subc c (needs_brackets_x bo (top_bop l))) l ;;
       b <~ rtoks (set_subc c (needs_brackets_x bo (top_bop r))) r ;;
       Some (parl (subc c) (a ++ KOp (BB bo) :: b))
   | TIn t' (TTuple vs None) negated None =>
-      a <~ rtoks (set_subq c false) t' ;; items <~ rtoks_items (set_subq c true) vs ;;
-      Some (a ++ KIn negated :: KLP :: items ++ [KRP])
+      a <~ rtoks (opc SInTerm t' (set_subq c false)) t' ;; items <~ rtoks_items (set_subq c true) vs ;;
+      Some (parl (operand_parens SInTerm (okind_of t')) a ++ KIn negated :: KLP :: items ++ [KRP])
   | TBetween t' lo hi None =>
-      a <~ rtoks c t' ;; b <~ rtoks c lo ;; d <~ rtoks c hi ;;
-      Some (a ++ KBetween :: b ++ KOp (BB BAnd) :: d)
-  | TIsNull t' None => a <~ rtoks (set_wa c false) t' ;; Some (a ++ [KPost PIsNull])
-  | TNotNull t' None => a <~ rtoks (set_wa c false) t' ;; Some (a ++ [KPost PIsNotNull])
+      a <~ rtoks (opc SBetTerm t' c) t' ;; b <~ rtoks (opc SBetLo lo c) lo ;; d <~ rtoks (opc SBetHi hi c) hi ;;
+      Some (parl (operand_parens SBetTerm (okind_of t')) a ++ KBetween :: parl (operand_parens SBetLo (okind_of lo)) b
+            ++ KOp (BB BAnd) :: parl (operand_parens SBetHi (okind_of hi)) d)
+  | TIsNull t' None =>
+      a <~ rtoks (opc SIsNull t' (set_wa c false)) t' ;; Some (parl (operand_parens SIsNull (okind_of t')) a ++ [KPost PIsNull])
+  | TNotNull t' None =>
+      a <~ rtoks (opc SNotNull t' (set_wa c false)) t' ;; Some (parl (operand_parens SNotNull (okind_of t')) a ++ [KPost PIsNotNull])
   | TNot t' None => a <~ rtoks (set_subc c true) t' ;; Some (KNot :: a)
   | TCase wl els None =>
       let c' := set_wa c false in
@@ -249,17 +313,23 @@ with rtoks_whens (c : ctx) (l : wlist) {struct l} : option (list tok) :=
 Fixpoint to_expr (c : ctx) (t : term) {struct t} : option expr :=
   match t with
   | TField _ _ None | TStar _ | TValS _ None | TValI _ None | TValB _ _ None | TValNone None | TValRaw _ None
-  | TLit _ None | TParam _ => s <~ leaf_text (set_wa c false) t ;; Some (EAtom s)
-  | TNeg t' => a <~ to_expr c t' ;; Some (ENeg a)
-  | TArith op l r None => a <~ to_expr (set_wa c false) l ;; b <~ to_expr (set_wa c false) r ;; Some (EBin (BA op) a b)
-  | TBasic cm l r None => a <~ to_expr (set_wa c false) l ;; b <~ to_expr (set_wa c false) r ;; Some (EBin (BC cm) a b)
-  | TCplx bo l r None => a <~ to_expr c l ;; b <~ to_expr c r ;; Some (EBin (BB bo) a b)
+  | TLit _ None | TParam _ =>
+      s <~ leaf_text (set_wa c false) t ;; match s with EmptyString => None | _ => Some (EAtom s) end
+  | TNeg t' => a <~ to_expr (opc SNeg t' c) t' ;; Some (ENeg a)
+  | TArith op l r None =>
+      a <~ to_expr (opc SArithL l (set_wa c false)) l ;; b <~ to_expr (opc SArithR r (set_wa c false)) r ;; Some (EBin (BA op) a b)
+  | TBasic cm l r None =>
+      a <~ to_expr (opc SCmpL l (set_wa c false)) l ;; b <~ to_expr (opc SCmpR r (set_wa c false)) r ;; Some (EBin (BC cm) a b)
+  | TCplx bo l r None =>
+      a <~ to_expr (set_subc c (needs_brackets_x bo (top_bop l))) l ;;
+      b <~ to_expr (set_subc c (needs_brackets_x bo (top_bop r))) r ;; Some (EBin (BB bo) a b)
   | TIn t' (TTuple vs None) negated None =>
-      a <~ to_expr (set_subq c false) t' ;; items <~ to_items (set_subq c true) vs ;; Some (EIn negated a items)
-  | TBetween t' lo hi None => a <~ to_expr c t' ;; b <~ to_expr c lo ;; d <~ to_expr c hi ;; Some (EBetween a b d)
-  | TIsNull t' None => a <~ to_expr (set_wa c false) t' ;; Some (EPost PIsNull a)
-  | TNotNull t' None => a <~ to_expr (set_wa c false) t' ;; Some (EPost PIsNotNull a)
-  | TNot t' None => a <~ to_expr c t' ;; Some (ENot a)
+      a <~ to_expr (opc SInTerm t' (set_subq c false)) t' ;; items <~ to_items (set_subq c true) vs ;; Some (EIn negated a items)
+  | TBetween t' lo hi None =>
+      a <~ to_expr (opc SBetTerm t' c) t' ;; b <~ to_expr (opc SBetLo lo c) lo ;; d <~ to_expr (opc SBetHi hi c) hi ;; Some (EBetween a b d)
+  | TIsNull t' None => a <~ to_expr (opc SIsNull t' (set_wa c false)) t' ;; Some (EPost PIsNull a)
+  | TNotNull t' None => a <~ to_expr (opc SNotNull t' (set_wa c false)) t' ;; Some (EPost PIsNotNull a)
+  | TNot t' None => a <~ to_expr (set_subc c true) t' ;; Some (ENot a)
   | TCase wl els None =>
       match wl with
       | WNil => None
@@ -277,6 +347,45 @@ with to_whens (c : ctx) (l : wlist) {struct l} : option ewlist :=
   match l with
   | WNil => Some EWNil
   | WCons cr v r => a <~ to_expr c cr ;; b <~ to_expr c v ;; rest <~ to_whens c r ;; Some (EWCons a b rest)
+  end.
+
+(* ------------------------------------------------------------------------------------------- *)
+(* the subcriterion flag: Not.get_sql sets it for its operand, ComplexCriterion consumes it, every other renderer   *)
+(* passes its kwargs on.  A flag that reaches an AND/OR term through such a pass-through brackets it although no     *)
+(* operator asked for it (harmless text, but not the printer's).  [nl fl t]: rendering t in a context whose flag is  *)
+(* fl delivers no flag to an AND/OR term except directly from NOT / from the enclosing AND/OR.                       *)
+(* ------------------------------------------------------------------------------------------- *)
+Definition is_cplx (t : term) : bool := match t with TCplx _ _ _ _ => true | _ => false end.
+Definition pops (sl : oslot) (t : term) : bool := operand_parens sl (okind_of t) && negb operand_keeps_subc.
+Fixpoint nl (fl : bool) (t : term) {struct t} : bool :=
+  match t with
+  | TNeg o => if pops SNeg o then nl false o else negb (fl && is_cplx o) && nl fl o
+  | TArith _ l r _ =>
+      (if pops SArithL l then nl false l else negb (fl && is_cplx l) && nl fl l)
+      && (if pops SArithR r then nl false r else negb (fl && is_cplx r) && nl fl r)
+  | TBasic _ l r _ =>
+      (if pops SCmpL l then nl false l else negb (fl && is_cplx l) && nl fl l)
+      && (if pops SCmpR r then nl false r else negb (fl && is_cplx r) && nl fl r)
+  | TCplx bo l r _ => nl (needs_brackets_x bo (top_bop l)) l && nl (needs_brackets_x bo (top_bop r)) r
+  | TIn o (TTuple vs _) _ _ =>
+      (if pops SInTerm o then nl false o else negb (fl && is_cplx o) && nl fl o) && nl_items fl vs
+  | TBetween o lo hi _ =>
+      (if pops SBetTerm o then nl false o else negb (fl && is_cplx o) && nl fl o)
+      && (if pops SBetLo lo then nl false lo else negb (fl && is_cplx lo) && nl fl lo)
+      && (if pops SBetHi hi then nl false hi else negb (fl && is_cplx hi) && nl fl hi)
+  | TIsNull o _ => if pops SIsNull o then nl false o else negb (fl && is_cplx o) && nl fl o
+  | TNotNull o _ => if pops SNotNull o then nl false o else negb (fl && is_cplx o) && nl fl o
+  | TNot o _ => nl true o
+  | TCase ws els _ => nl_whens fl ws && (match els with ONone => true | OSome e => negb (fl && is_cplx e) && nl fl e end)
+  | TFunc _ args _ _ => nl_items false args
+  | _ => true
+  end
+with nl_items (fl : bool) (l : tlist) {struct l} : bool :=
+  match l with TNil => true | TCons t r => negb (fl && is_cplx t) && nl fl t && nl_items fl r end
+with nl_whens (fl : bool) (l : wlist) {struct l} : bool :=
+  match l with
+  | WNil => true
+  | WCons c v r => negb (fl && is_cplx c) && nl fl c && negb (fl && is_cplx v) && nl fl v && nl_whens fl r
   end.
 
 (* ------------------------------------------------------------------------------------------- *)
@@ -322,6 +431,29 @@ with norm_whens (l : ewlist) : ewlist :=
 with norm_else (o : eopt) : eopt := match o with EONone => EONone | EOSome e => EOSome (norm e) end.
 
 (* ------------------------------------------------------------------------------------------- *)
+(* "clean" trees: NOT is applied only where a truth value is expected -- under NOT/AND/OR/XOR, as a function        *)
+(* argument, CASE part or list item -- never as an operand of an arithmetic operator, a comparison, unary minus,     *)
+(* IS NULL, IN or BETWEEN (pypika's own suite pins  Field("foo").negate().eq("bar")  to the text  NOT "foo"='bar').  *)
+(* ------------------------------------------------------------------------------------------- *)
+Definition is_not (e : expr) : bool := match e with ENot _ => true | _ => false end.
+Definition bool_op (o : binop) : bool := match o with BB _ => true | _ => false end.
+Fixpoint clean (e : expr) : bool :=
+  match e with
+  | EAtom _ => true
+  | ENeg c => negb (is_not c) && clean c
+  | ENot c => clean c
+  | EBin o l r => (bool_op o || (negb (is_not l) && negb (is_not r))) && clean l && clean r
+  | EPost _ c => negb (is_not c) && clean c
+  | EIn _ c items => negb (is_not c) && clean c && clean_items items
+  | EBetween c lo hi => negb (is_not c) && negb (is_not lo) && negb (is_not hi) && clean c && clean lo && clean hi
+  | ECall _ args => clean_items args
+  | ECase ws els => clean_whens ws && clean_else els
+  end
+with clean_items (l : elist) : bool := match l with ENil => true | ECons e r => clean e && clean_items r end
+with clean_whens (l : ewlist) : bool := match l with EWNil => true | EWCons c v r => clean c && clean v && clean_whens r end
+with clean_else (o : eopt) : bool := match o with EONone => true | EOSome e => clean e end.
+
+(* ------------------------------------------------------------------------------------------- *)
 (* lexical side: no comment introducer between adjacent tokens                                   *)
 (* ------------------------------------------------------------------------------------------- *)
 Definition first_char (s : string) : option ascii := match s with String a _ => Some a | EmptyString => None end.
@@ -337,6 +469,27 @@ Fixpoint adjacency_ok (ts : list tok) : bool :=
   | t1 :: ((t2 :: _) as r) => negb (bad_adj t1 t2) && adjacency_ok r
   | _ => true
   end.
+
+(* lexical well-formedness of the leaves.  Leaf texts come from identifiers, numbers, quoted strings -- and from raw SQL
+   the user supplies (LiteralValue, Parameter, function names, the star).  The lexical clause of the property is about
+   introducers "created by adjacent operators or signs", so the leaves themselves must not end in an operator
+   character or (except as a list item: COUNT( * )) begin with the star. *)
+Definition ends_bad (s : string) : bool := is_char (last_char s) "-" || is_char (last_char s) "/".
+Definition atom_lex (a : string) : bool := negb (ends_bad a) && negb (is_char (first_char a) "*").
+Fixpoint lex_ok (e : expr) : bool :=
+  match e with
+  | EAtom a => atom_lex a
+  | ENeg c | ENot c | EPost _ c => lex_ok c
+  | EBin _ l r => lex_ok l && lex_ok r
+  | EIn _ c items => lex_ok c && lex_items items
+  | EBetween c lo hi => lex_ok c && lex_ok lo && lex_ok hi
+  | ECall f args => negb (String.eqb f "") && negb (is_char (first_char f) "*") && lex_items args
+  | ECase ws els => lex_whens ws && lex_else els
+  end
+with lex_items (l : elist) : bool :=
+  match l with ENil => true | ECons e r => (match e with EAtom _ => true | _ => lex_ok e end) && lex_items r end
+with lex_whens (l : ewlist) : bool := match l with EWNil => true | EWCons c v r => lex_ok c && lex_ok v && lex_whens r end
+with lex_else (o : eopt) : bool := match o with EONone => true | EOSome e => lex_ok e end.
 
 Definition tok_eqb (a b : tok) : bool :=
   match a, b with
